@@ -94,6 +94,12 @@ Proof.
   - rewrite (fold_compress_len (sha2_compress P512) 8); [reflexivity|apply sha2_compress_len|reflexivity].
 Qed.
 
+Lemma SHA_spec_ok t m : bytes_okb (SHA_spec t m) = true.
+Proof.
+  unfold SHA_spec, words_bytes. induction (sha_hash _ _ _ _ _) as [|w ws IH]; [reflexivity|].
+  cbn [flat_map]. now rewrite bytes_okb_app, be_bytes_ok, IH.
+Qed.
+
 (* ---------- the pinned SHA-512 is refuted (finding F1) ---------- *)
 Lemma sha512_pinned_refuted : exists msg, sha512_oneshot_pinned msg <> SHA_spec SHA512 msg.
 Proof. exists (repeat 97 112). vm_compute. discriminate. Qed.
